@@ -287,6 +287,13 @@ F7 ==    {FileS(<<Elem("v", <<Attr("model:", "v", EV(e))>>, <<>>)>>) : e \in LAl
     \cup {FileS(<<For(EV(Id("l")), "x", "y", "", <<For(EV(Mem(Id("x"), "sub")), "item", "index", "",
                     <<Elem("v", <<Attr("model:", "v", EV(e))>>, <<>>)>>)>>)>>) :
              e \in {Id("item"), Id("x"), Mem(Id("x"), "v"), Id("index"), Id("y")}}
+    (* a two-way binding inside a template definition reads the template's own data (a copy): it names no location of the
+       component's data, whatever expression the data came from *)
+    \cup { << [path |-> "a", imports |-> <<>>, wxs |-> <<WxsIn, WxsExt>>,
+               defs |-> <<[n |-> "t", ch |-> <<Elem("v", <<Attr("model:", "v", EV(e))>>, <<>>)>>]>>,
+               root |-> <<TmplIs(SV("t"), EV(d))>>] >> :
+              e \in {Id("y"), Mem(Id("y"), "p"), Mem(Id("z"), "p")},
+              d \in {Obj(<<Named("y", Mem(Id("o"), "p")), Named("z", Id("o"))>>), Obj(<<Named("y", Id("o")), Short("o")>>)} }
     \cup {FileS(<<For(EV(l), "item", "index", "", <<Elem("v", <<Attr(f, "tap", EV(e))>>, <<>>)>>)>>) :
              l \in {Mem(Id("m"), "list"), Id("l")}, f \in {"bind"}, e \in {Mem(Id("item"), "f"), Id("item"), Mem(Id("m"), "f")}}
 
